@@ -61,20 +61,25 @@ func verifSiteNodes(s *catalog.Schema) []string {
 // and path schemas"): one method GET /x/{ka}/{own} with K schema-bearing children
 // chosen from: 204 any, a 200 body, a 404 with Headers, a Request body, Request
 // Headers, Query, Path - each (but the first) an object with an allOf rule naming
-// @a {"ka"} or @b {allOf @a, "kb"} and one own property. In every accepted
+// @a {"ka"}, @b {allOf @a, "kb"}, @c {"kc", @k : 2} or @d {allOf @c, "kd"} and one
+// own property. In every accepted
 // document every such schema lists the inherited properties first, in base order,
 // marked with the direct base, then its own property - wherever it stands among
 // its siblings.
 func VerifH_AllOfSites() {
 	k := verifrt.Bound("K")
-	text := "JSIGHT 0.3\nTYPE @a\n{\"ka\": 1}\nTYPE @b\n{ // {allOf: \"@a\"}\n  \"kb\": 2\n}\nGET /x/{ka}/{own}\n"
+	text := "JSIGHT 0.3\nTYPE @a\n{\"ka\": 1}\nTYPE @b\n{ // {allOf: \"@a\"}\n  \"kb\": 2\n}\n" +
+		// @c has a property whose key is a user type (a family of additional properties), @d inherits from @c
+		"TYPE @k\n\"abc\"\nTYPE @c\n{ // {additionalProperties: true}\n  \"kc\": 1,\n  @k : 2\n}\nTYPE @d\n{ // {allOf: \"@c\"}\n  \"kd\": 2\n}\n" +
+		"GET /x/{ka}/{own}\n"
 	var sites []int
 	var bases []string
 	for i := 0; i < k; i++ {
 		s := verifrt.Choice("site", sCount)
 		base := "a"
-		if s != sResp204Any && s != sPath && verifrt.Choice("base", 2) == 1 {
-			base = "b" // a Path body inheriting "kb" would have a property without a path parameter: another fault
+		if s != sResp204Any && s != sPath {
+			// a Path body inheriting anything but "ka" would have a property without a path parameter: another fault
+			base = []string{"a", "b", "c", "d"}[verifrt.Choice("base", 4)]
 		}
 		sites = append(sites, s)
 		bases = append(bases, base)
@@ -99,10 +104,15 @@ func VerifH_AllOfSites() {
 	}
 	want := func(i int) []string {
 		var w []string
-		if bases[i] == "a" {
+		switch bases[i] {
+		case "a":
 			w = append(w, "ka<@a")
-		} else {
+		case "b":
 			w = append(w, "ka<@b", "kb<@b")
+		case "c":
+			w = append(w, "kc<@c", "@k<@c")
+		default:
+			w = append(w, "kc<@d", "@k<@d", "kd<@d")
 		}
 		return append(w, verifSiteOwn[sites[i]]+"<")
 	}
